@@ -185,6 +185,11 @@ def nested_stage(chk, pid, tier, seed, names, check_c07):
                        else G.gen_ops(rng, m, 1, "plan_only")[0])
         ops.append("op snapall")
         cases.append({"id": "f%d" % i, "model": m, "ops": ops})
+    # a member of a planned group whose own un-plan is rejected by the capacity check (constructed: the member picks up
+    # what a later stop drops off): the group has to stay booked as planned
+    for i in range(max(60, n // 4)):
+        m, ops = G.member_unplan_rejected(rng)
+        cases.append({"id": "r%d" % i, "model": m, "ops": ops})
     n = len(cases)
     res, st = E.run_cases(cases, "%s_nested_%s" % (pid.lower(), tier), timeout=3000)
     # implementation and model are compared up to AND INCLUDING the first step that corrupts the bookkeeping of nested
